@@ -384,6 +384,45 @@ func (k *Kernel) sleepers() int {
 	return n
 }
 
+// parallelSite names the csvq function that started the worker goroutines of
+// the goroutine `parent` is waiting for: the frame below GoroutineTaskManager.Run
+// / EvaluateSequentially (or the function itself for the hand-written worker
+// loops) in the parent's stack. Called by the controller while everything is
+// parked; used for reach probes only.
+func parallelSite(parent uint64) string {
+	if parent == 0 {
+		return "?"
+	}
+	buf := make([]byte, 1<<18)
+	n := runtime.Stack(buf, true)
+	s := string(buf[:n])
+	i := strings.Index(s, fmt.Sprintf("goroutine %d [", parent))
+	if i < 0 {
+		return "?"
+	}
+	s = s[i:]
+	if j := strings.Index(s, "\n\n"); j > 0 {
+		s = s[:j]
+	}
+	const pkg = "github.com/mithrandie/csvq/lib/query."
+	site := "?"
+	for _, l := range strings.Split(s, "\n") {
+		if !strings.HasPrefix(l, pkg) {
+			continue
+		}
+		fn := l[len(pkg):]
+		if j := strings.LastIndex(fn, "("); j > 0 {
+			fn = fn[:j]
+		}
+		if strings.Contains(fn, "GoroutineTaskManager") || strings.HasPrefix(fn, "EvaluateSequentially") {
+			continue
+		}
+		site = fn
+		break
+	}
+	return site
+}
+
 func isWorkerPoint(p string) bool {
 	return strings.HasPrefix(p, "gm.run.") || strings.HasPrefix(p, "eval.seq.") || strings.HasPrefix(p, "group.") ||
 		strings.HasPrefix(p, "join.") || strings.HasPrefix(p, "analyze.")
@@ -510,6 +549,10 @@ func (k *Kernel) accept(a *arrival) {
 	g.proc.yields++
 	k.parked = append(k.parked, g)
 	sort.Slice(k.parked, func(i, j int) bool { return k.parked[i].id < k.parked[j].id })
+	if a.goid != 0 && a.idx == 1 && isWorkerPoint(a.point) {
+		// reach probe: which of csvq's parallel sections ran with a second worker
+		k.Stats.probe("par@" + parallelSite(a.parent))
+	}
 	if isWorkerPoint(a.point) {
 		n := 0
 		for _, pg := range k.parked {
